@@ -261,7 +261,7 @@ static bool model_step_inner(Model &m, Op &op);
 bool model_step(Model &m, Op &op) {
     bool ok = model_step_inner(m, op);
     op.exp_numrecs_lo.clear(); op.exp_numrecs_hi.clear();
-    if (ok && op.file >= 0 && op.file < (int)m.files.size() && op.kind != OP_CHECKPOINT && op.kind != OP_BARRIER) {
+    if (ok && op.file >= 0 && op.file < (int)m.files.size() && op.kind != OP_CHECKPOINT && op.kind != OP_BARRIER && op.kind != OP_BADID) {
         MFile &f = m.files[op.file];
         if (f.open && f.unlimdim() >= 0 && !f.ranks.empty())
             for (auto &r : f.ranks) { op.exp_numrecs_lo.push_back(r.numrecs); op.exp_numrecs_hi.push_back(r.numrecs_dirty || f.mode == FM_INDEP ? std::max(r.numrecs, f.numrecs) : r.numrecs); }
@@ -273,6 +273,7 @@ static bool model_step_inner(Model &m, Op &op) {
     int opidx = m.opidx++;
     op.snap.reset(); op.msnap.reset(); op.exp_nreqs.clear(); op.exp_usage.clear();
     if (op.kind == OP_BARRIER) { m.pending_reads.clear(); return true; }
+    if (op.kind == OP_BADID) { op.exp_rc = NC_EBADID; return true; }   // a call on an id that is not open: always applicable
     if (op.kind == OP_CHECKPOINT) {
         m.pending_reads.clear();
         if (op.a[0] == 1) { if (op.file < 0 || op.file >= (int)m.files.size() || !m.files[op.file].open || !m.files[op.file].in_redef) { op.skip = true; return false; } m.snap_state[op.file] = 1; op.name = m.files[op.file].path; }
@@ -308,6 +309,7 @@ static bool model_step_inner(Model &m, Op &op) {
     case OP_CLOSE: case OP_ABORT: {
         if (!f.open) return skip();
         if (any_pending(f) && op.a[0] == 0) return skip();
+        if (op.kind == OP_ABORT && any_pending(f)) { op.exp_rc_rank.assign(m.nprocs, NC_NOERR); for (int r = 0; r < m.nprocs; r++) for (auto &q : f.ranks[r].reqs) if (q.live) op.exp_rc_rank[r] = NC_EPENDING; }
         if (op.kind == OP_ABORT && (f.fresh && f.mode == FM_DEFINE)) { m.disk.erase(f.path); m.absent.push_back(f.path); f = MFile(); return true; }
         if (op.kind == OP_ABORT && f.in_redef && f.saved) { MFile s = *f.saved; s.open = false; s.ranks.clear(); m.disk[s.path] = s; f = MFile(); if (m.snap_state[op.file] == 1) { m.snap_state[op.file] = 2; op.name = s.path; } return true; }
         m.snap_state[op.file] = 0;
